@@ -250,6 +250,11 @@ def search_bisection(array, val):
     
     """
 
+    if isinstance(val, float):
+        # a plain Python float is a weakly typed operand for NumPy: compared with a float32 / float16 element it would first
+        # be rounded to that precision (and the vector search, which converts its queries to an array, would disagree)
+        val = numpy.float64(val)
+
     jlower = 0
     jupper = len(array) - 1
 
